@@ -80,6 +80,23 @@ def run(ctx):
                'the repeat counts do not depend on %s' % k)
     draws = [c for c in walk_no_nested(f.node) if _is_uniform_draw(c)]
     for c in draws:
+        # "with expectation exactly r ... over many resampling draws": two requests made in the
+        # same sampler state must not see the same uniforms, so the draw has to advance a
+        # generator that outlives the call -- not a copy made inside it
+        recv = dotted(c.func.value) or ''
+        kept = recv.startswith('%s.' % f.self_name)
+        if not kept:
+            from ..effects import _private_generator
+            ctx.require(_private_generator(f, f.where(c), dotted(c.func)) or
+                        isinstance(c.func.value, ast.Name),
+                        'Q4 not decided: generator `%s` of the rounding draw' % recv)
+        ctx.ob('Q4', 'Sampler.posterior:uniform-draw-advances-kept-generator', kept, f.where(c),
+               'the rounding draw advances the sampler\'s own generator: repeated requests are '
+               'independent resamplings' if kept else
+               'the rounding draw is made on `%s`, a generator created inside the call (a copy '
+               'of the sampler\'s): every request made in the same sampler state uses the same '
+               'uniforms, so over many draws a sample is always or never rounded up - its mean '
+               'multiplicity is floor(r) or floor(r)+1, not r' % recv)
         dt = [k.value for k in c.keywords if k.arg == 'dtype']
         ok = not dt or dotted(dt[0]) in ('np.float64', 'float', 'np.double')
         ctx.ob('Q4', 'Sampler.posterior:uniform-draw-double-precision', ok, f.where(c),
